@@ -214,7 +214,8 @@ push, eviction of the extra line; write-back of a Modified L1 line into the L3 l
   line.  `Model.L3.cleanB` is its decidable snapshot form — evaluated on the real snapshots of the C06 streams.
 
 The operations are the atomic steps of the Go code run back to back; `l3_fetch_push_race` / `l3_evict_decision_race`
-show what the model says about the two windows the Go code leaves open between them. -/
+show what the model says about the two windows between them (window 1 was a real defect, fixed since; window 2 is not
+reachable in the code's timing). -/
 
 /-- the geometry of proc/mvp8-0 as the proofs need it (128-byte L3 lines, 64-byte L1 lines; re-opened when the
 regenerated constants change) -/
@@ -363,8 +364,10 @@ theorem l3_not_evict_keeps_next_level_bad :
 
 /-- **window 1** (`fetchCacheLine` … `pushLineToL3`, ≈ 360 cycles in Go): if a Modified L1 line of the same L3 block is
 written back to memory between the fetch and the push, the pushed line is stale — resident, not flagged, different from
-memory (`cleanB` false), and the FILL has changed the next-level view (byte 64: 1 → 0).  CONFIRMED on the real code
-(rig schedule, .work/reports/C06-defect-3.md): the store is lost. -/
+memory (`cleanB` false), and the FILL has changed the next-level view (byte 64: 1 → 0).  This WAS the behaviour of the
+real code (rig schedule, reports/C06-defect-3.md: the store was lost); fixed in /repo (commit 2747746: the block is copied
+when it enters L3), so that `Model.L3.fill` — fetch and push as one step — now describes the code exactly and this history
+is no longer one of the code's. -/
 theorem l3_fetch_push_race :
     (do let s0 ← Model.L3.new Model.L3.mvp8Config (List.replicate 256 0#8)
         let (lo, line) ← Model.L3.fetchLine Model.L3.mvp8Config s0.mem 0#32
